@@ -117,6 +117,29 @@ def _instantiate_generics(cal, callee_raw, call):
         walk(blk['stmts'])
 
 
+def _expand_ok_or(cal):
+    """in the copy of a helper that is being inlined, `opt.ok_or(err)` becomes the dispatch it stands for (Some(v) -> Ok(v), None ->
+    Err(err)), so that the variant-sensitive walk relates the caller's `?` to the test that produced the Option"""
+    for blk in list(cal['blocks']):
+        t = blk['term']
+        if t['k'] != 'call' or not isinstance(t.get('f'), dict) or not (t['f'].get('fn') or '').endswith('Option::<T>::ok_or'):
+            continue
+        if len(t['args']) != 2 or t.get('t') is None or not isinstance(t['args'][0], dict) or 'l' not in t['args'][0] or t['args'][0].get('p'):
+            continue
+        opt = t['args'][0]['l']
+        cont = t['t']
+        d = len(cal['locals'])
+        cal['locals'].append({'ty': 'isize'})
+        si = len(cal['blocks'])
+        cal['blocks'].append({'i': si, 'cleanup': blk['cleanup'], 'stmts': [{'k': 'assign', 'dst': copy.deepcopy(t['dst']), 'rv': {'k': 'agg', 'ak': 'adt', 'adt': 'Result', 'var': 'Ok', 'fields': ['0'], 'ops': [{'l': opt, 'p': ['as Some', '.Option.0'], 'mv': True}]}, 's': t.get('s'), 'inl': 'comb'}],
+                              'term': {'k': 'goto', 't': cont}})
+        ni = len(cal['blocks'])
+        cal['blocks'].append({'i': ni, 'cleanup': blk['cleanup'], 'stmts': [{'k': 'assign', 'dst': copy.deepcopy(t['dst']), 'rv': {'k': 'agg', 'ak': 'adt', 'adt': 'Result', 'var': 'Err', 'fields': ['0'], 'ops': [copy.deepcopy(t['args'][1])]}, 's': t.get('s'), 'inl': 'comb'}],
+                              'term': {'k': 'goto', 't': cont}})
+        blk['stmts'].append({'k': 'assign', 'dst': {'l': d, 'p': []}, 'rv': {'k': 'discr', 'pl': {'l': opt, 'p': []}}, 's': t.get('s'), 'inl': 'comb'})
+        blk['term'] = {'k': 'switch', 'd': {'l': d, 'p': [], 'mv': True}, 'ty': 'isize', 'ts': [['0', ni]], 'else': si, 's': t.get('s')}
+
+
 def _expand_then_some(cal):
     """in the copy of a helper that is being inlined, `flag.then_some(v)` becomes the branch it stands for
     (flag: dst = Some(v) / else: dst = None), so that path rules see the test of the flag (a helper that returns
@@ -147,6 +170,7 @@ def inline_into(caller_raw, callee_raw, bi):
     B = len(new['blocks'])
     cal = copy.deepcopy({'locals': callee_raw['locals'], 'blocks': callee_raw['blocks'], 'debug': callee_raw.get('debug', [])})
     _expand_then_some(cal)
+    _expand_ok_or(cal)
     _instantiate_generics(cal, callee_raw, call)
     for blk in cal['blocks']:
         _shift(blk['stmts'], L, B)
